@@ -426,8 +426,22 @@ def run_scenario(scn, seed, pct=0, choices=None, preempt=None):
             raise
         finally:
             rec['end'] = S.vt
+    def g(key):
+        # the wrapped callable need not be a coroutine function: one that returns an awaitable may also fail at call
+        # time, before there is anything to await (argument validation, a TypeError of the binding) - for the
+        # protocol a failed computation of no duration
+        me = len(E.inv)
+        if scn['fails'][me % 8] and not scn['durs'][me % 8] and (me + vsalt) % 2 == 0:
+            c = E.cur()
+            lp = asyncio.get_running_loop()
+            E.inv.append(dict(key=key, caller=c, start=S.vt, end=S.vt, out=('raise', me), loop=getattr(lp, 'li', None)))
+            E.owner_phase[c] = True
+            E.obs.append(f'is:{c}')
+            E.obs.append(f'ie:{c}:1:{me}')
+            raise Boom(me)
+        return f(key)
     try:
-        w = A.threadsafe_async_cache(f, cache=cache)
+        w = A.threadsafe_async_cache(g, cache=cache)
     finally:
         attach.substitute(A, [event_pair], (asyncio,))       # locks created from now on are real ones again
     tables = find_tables(w)
